@@ -14,7 +14,7 @@ import (
 )
 
 func init() {
-	core.Register(&core.Family{Name: "schema", Exec: exec, Classify: classify})
+	core.Register(&core.Family{Name: "schema", Exec: exec, Classify: classify, NeedCompared: true})
 }
 
 // ---- the observed pointer graph -------------------------------------------------
@@ -222,6 +222,7 @@ func judge(c *Case) *core.Verdict {
 		}
 	}
 	if !clean || c.Errs {
+		v.NT = false // an error outcome, agreed on: the trees are not compared
 		return v
 	}
 	// the real trees, flattened
